@@ -134,6 +134,31 @@ class ResubSim(Sim):
             val = flags.get(name, dflt)
             if val != dflt:
                 argv.append(f"--{name}" if val else f"--no-{name}")
+        if flags.get("groups"):
+            # documented way to change the submission parameters of a resubmission: copy submitter_groups.json, edit it,
+            # pass it with -s.  From here on the groups' limits and HPC parameters are the new ones.
+            import json
+
+            data = json.load(open(os.path.join(self.out, "submitter_groups.json")))
+            new = {g["name"]: g for g in flags["groups"]}
+            for d in data:
+                g = new[d["name"]]
+                sp = d["submitter_params"]
+                sp["per_node_batch_size"] = g["batch"]
+                sp["time_based_batching"] = g["time_based"]
+                sp["num_parallel_processes_per_node"] = g["procs_opt"]
+                sp["try_add_blocked_jobs"] = g["try_add"]
+                sp["verbose"] = g.get("verbose", False)
+                sp["hpc_config"]["hpc"]["walltime"] = g["walltime"]
+                sp["hpc_config"]["hpc"]["account"] = g["account"]
+                for k_ in ("partition", "qos", "mem"):
+                    sp["hpc_config"]["hpc"][k_] = (g.get("slurm_opts") or {}).get(k_)
+            gf = os.path.join(self.root, f"groups_resubmit{k}.json")
+            json.dump(data, open(gf, "w"), indent=2)
+            argv += ["-s", gf]
+            self.groups = new
+            self.scen["groups"] = flags["groups"]
+            self.log("RESUBMIT_GROUPS", [(g["name"], g["batch"], g["time_based"], g["walltime"], g["procs_opt"]) for g in flags["groups"]])
         n_launch0 = {n: len(v) for n, v in self.launches.items()}
         tag = f"resubmit{k}"
         self.spawn_top(tag, argv, rs.get("host", "login"))
@@ -202,6 +227,9 @@ class ResubSim(Sim):
                 ok = (got in ("successful", "failed")) == (n in relaunched)
             if not ok:
                 self.viol("C13", "outcome-after-resubmission", f"{n}: {got} after resubmission, expected {m}")
+                if n in closure and n not in maybe and "canceled" in (got, m) and m in ("canceled", "successful", "failed"):
+                    # failure cancellation among the jobs of a resubmission is C04's statement as well (decided cases only)
+                    self.viol("C04", "cancellation-in-resubmission", f"{n} (flag {self.jobs[n]['flag']}): {got} after resubmission, the dependency graph with the rerun exit codes gives {m}")
             elif n in closure and m in ("successful", "failed") and after[n][0] != model2[n][1]:
                 self.viol("C13", "outcome-after-resubmission", f"{n}: return code {after[n][0]} after resubmission, expected {model2[n][1]}")
         self.resubmissions_checked = getattr(self, "resubmissions_checked", 0) + 1
